@@ -12,13 +12,20 @@ behaviour, what every access of the history must return for every row, plus the 
 The driver builds the REAL pipeline for each behaviour (real HeadRows / EncodeRows / DropRows / LabelRows /
 EncodeCatRows / ArffReader objects), and on each resulting row OBJECT performs the history, comparing every
 returned value (type-exact) with the spec's, then the complete sweep forwards and backwards on the same
-object (so every access is also observed after every history).  Python only converts values and compares."""
+object (so every access is also observed after every history).  Python only converts values and compares.
+
+REUSE (spec: REUSE RULE / StackIsFunction).  For every pipeline TLC also prints its "twins": second, different tables (other
+width / header order / values, and the other container kind where the same constructor arguments mean the same) with what
+every access must return there, computed by the same fold of the stage operators.  The driver constructs the filter objects
+ONCE, feeds them the first table, then the twin, then the first table again, and sweeps all accesses on the rows of the second
+and third application.  A disagreement that a fresh stack of filter objects does not show on the same table is reported as
+`reused-filter:second-table:...` / `reused-filter:first-table-again:...`."""
 import json, os, random
 from operator import attrgetter
 from .. import tlc, tracecheck
 
 FINISH = dict(level="model_checking",
-              rule="a case = one TLC-generated behaviour (base table, filter stack, access history) replayed on real row objects: the history, then a full sweep of all accesses forwards and backwards, on every row; distinct = distinct behaviours")
+              rule="a case = one TLC-generated behaviour (base table, filter stack, access history) replayed on real row objects: the history, then a full sweep of all accesses forwards and backwards, on every row; or one (pipeline, second table) pair: the same filter objects fed the first table, the second table and the first again, full sweeps on the 2nd and 3rd application; distinct = distinct behaviours / pairs")
 
 ENC = {"id": (lambda x: x), "int": int, "inc": (lambda x: int(x) + 1), "str": str}
 
@@ -119,14 +126,22 @@ def make_stage(st, kind):
     raise ValueError(op)
 
 
-def build(case):
+def make_objects(stack, kind):
+    """the filter objects of a pipeline; the constructor arguments are the ones written for the FIRST table (of kind `kind`)"""
+    return [make_stage(st, kind) for st in stack]
+
+
+def feed(objs, base):
+    """one application of a stack of filter objects to one table, read completely"""
     from coba.pipes import ArffReader
-    base = case["base"]
     if base["src"] == "arff": rows = ArffReader().filter(arff_lines(base))
     else: rows = [conv_row(r, base["kind"]) for r in base["rows"]]
-    for st in case["stack"]:
-        rows = make_stage(st, base["kind"]).filter(rows)
+    for o in objs: rows = o.filter(rows)
     return list(rows)
+
+
+def build(case):
+    return feed(make_objects(case["stack"], case["base"]["kind"]), case["base"])
 
 
 # ------------------------------------------------------------------ one access on one row object
@@ -275,6 +290,61 @@ def signature(case, acc, outcome, row, got=NOTHING, exp=None):
     return "%s:%s:%s:%s" % (kind, outer, a, outcome)
 
 
+def generic_signature(kind, acc, outcome, row):
+    chain = wrappers(row) if row is not None else []
+    return "%s:%s:%s:%s" % (kind, chain[0] if chain else "-", acc["a"] if acc else "build", outcome)
+
+
+# ------------------------------------------------------------------ the same filter objects on a second table, and on the first again
+def replay_reuse(rec, counts):
+    """rec = one pipeline record (EmitStack).  Returns [(signature, what, twin name)]."""
+    kindA = rec["kind"]; found = {}
+    for tw in rec.get("twins", []):
+        twcase = dict(base=tw["base"], kind=tw["kind"], stack=rec["stack"], nrows=tw["nrows"], full=tw["full"])
+        try:
+            objs = make_objects(rec["stack"], rec["base"]["kind"])
+            feed(objs, rec["base"])                                  # first application: what the ordinary replays look at
+        except Exception:
+            continue                                                 # reported by the ordinary replay of this pipeline
+        fresh = {}
+        def fresh_rows(which, tcase):
+            if which not in fresh:
+                try: fresh[which] = feed(make_objects(rec["stack"], rec["base"]["kind"]), tcase["base"])
+                except Exception as e: fresh[which] = e
+            return fresh[which]
+        def report(which, tcase, acc, outcome, detail, row, fresh_bad, got=NOTHING, exp=None):
+            if fresh_bad: sig = signature(tcase, acc, outcome, row, got, exp)          # not a matter of reuse: the table itself
+            else: sig = "reused-filter:%s:%s" % (which, generic_signature(tcase["kind"], acc, outcome, row))
+            if sig not in found:
+                found[sig] = ("%s of the SAME filter objects (first table %s, second table %s): %s" % (
+                    {"second-table": "second application", "first-table-again": "third application"}[which], rec["base"]["name"], tw["base"]["name"], detail), tw["base"]["name"])
+        for which, tcase in (("second-table", twcase), ("first-table-again", rec)):
+            kind = tcase["kind"]
+            try:
+                rows = feed(objs, tcase["base"])
+            except Exception as e:
+                fr = fresh_rows(which, tcase)
+                report(which, tcase, None, "raises:" + type(e).__name__, "reading table %s raised %s: %s" % (tcase["base"]["name"], type(e).__name__, str(e)[:100]), None, isinstance(fr, Exception))
+                continue
+            if len(rows) != tcase["nrows"]:
+                fr = fresh_rows(which, tcase)
+                report(which, tcase, None, "rows", "table %s: %d rows, the eager table has %d" % (tcase["base"]["name"], len(rows), tcase["nrows"]), None,
+                       isinstance(fr, Exception) or len(fr) != tcase["nrows"])
+                continue
+            full = tcase["full"]
+            for r, row in enumerate(rows):
+                for where, st in [("sweep", f) for f in full] + [("reverse sweep", f) for f in reversed(full)]:
+                    counts[0] += 1
+                    bad = check_access(row, st["acc"], st["obs"][r], kind)
+                    if not bad: continue
+                    fr = fresh_rows(which, tcase)
+                    fresh_bad = isinstance(fr, Exception) or r >= len(fr) or check_access(fr[r], st["acc"], st["obs"][r], kind) is not None
+                    report(which, tcase, st["acc"], bad[0], "table %s, row %d, %s, %s%s: %s  [wrappers %s]" % (
+                        tcase["base"]["name"], r, where, st["acc"]["a"], "" if st["acc"]["k"] == 0 and st["acc"]["a"] not in ("pos", "fpos") else "(%r)" % (st["acc"]["k"],),
+                        bad[1], ">".join(wrappers(row))), row, fresh_bad, bad[2], st["obs"][r])
+    return sorted((sig, what, twin) for sig, (what, twin) in found.items())
+
+
 # ------------------------------------------------------------------ the check
 def replay(ctx, case, counts):
     kind = case["kind"]
@@ -314,7 +384,7 @@ def run(ctx):
                  ("s3a1", {S2: S3}, None, 5000),
                  ("s2a1-full", {"Lite = TRUE": "Lite = FALSE"}, None, 5000),
                  ("sim-s3a4", {S2: S3, "MaxAcc = 1": "MaxAcc = 4", "Lite = TRUE": "Lite = FALSE"}, (dict(num=1500), 10), 5000)]
-    counts = [0]; total = 0; seen = set()
+    counts = [0]; total = 0; seen = set(); seen_stacks = set(); reuse = [0, 0]; rcounts = [0]
     # a bare `except:` around a `yield` (LazyDense._enc_all, rows.py 57-61) swallows GeneratorExit when an iteration is abandoned on a
     # '?' cell: CPython reports "generator ignored GeneratorExit" through the unraisable hook.  Counted, not judged (no value changes).
     import sys
@@ -350,6 +420,18 @@ def run(ctx):
             ctx.case(key)
             for sig, what in replay(ctx, c, counts):
                 ctx.violation(sig, "%s: %s" % (describe(c), what), dict(base=c["base"], stack=c["stack"], hist=c["hist"]))
+        # ---- the same filter objects on the first table, on a twin, on the first table again (once per pipeline) ----
+        for skey in sorted(stacks):
+            if skey in seen_stacks: continue
+            seen_stacks.add(skey)
+            rec = stacks[skey]
+            reuse[0] += 1; reuse[1] += len(rec.get("twins", []))
+            for tw in rec.get("twins", []): ctx.case("reuse:" + skey + ":" + tw["base"]["name"])
+            total += len(rec.get("twins", []))
+            for sig, what, twin in replay_reuse(rec, rcounts):
+                ctx.violation(sig, "%s | %s: %s" % (rec["base"]["name"], " > ".join(stage_name(x) for x in rec["stack"]) or "(no filter)", what),
+                              dict(base=rec["base"], stack=rec["stack"], second_table=twin))
+        if not sim and not any(rec.get("twins") for rec in stacks.values()): raise RuntimeError("vacuous model run %s: no pipeline has a second table" % name)
         if not sim:
             missing = {"head", "encode", "drop", "label", "encodecat"} - {s["op"] for st in stacks.values() for s in st["stack"]}
             if missing or {st["kind"] for st in stacks.values()} != {"dense", "sparse"}: raise RuntimeError("vacuous model run %s: filters never stacked: %s" % (name, sorted(missing)))
@@ -361,11 +443,13 @@ def run(ctx):
         ctx.extra.setdefault("behaviours", {})[name] = dict(printed=len(hists), orphans=orphans)
     sys.unraisablehook = old_hook
     ctx.traces += total
-    ctx.extra["accesses_compared"] = counts[0]
+    ctx.extra["accesses_compared"] = counts[0] + rcounts[0]
+    ctx.extra["reuse"] = dict(pipelines=reuse[0], pipeline_twin_pairs=reuse[1], accesses_compared=rcounts[0])
     ctx.extra["unraisable_generator_exit_reports"] = unraisable[0]
     if unraisable[0]: ctx.notes.append("%d abandoned iterations of a lazy dense ARFF row made CPython report 'generator ignored GeneratorExit' (bare except around yield in LazyDense._enc_all); no returned value is affected" % unraisable[0])
     ctx.assumptions += [
         "headers name every column exactly once; EncodeRows sequences have one encoder per column; encoders do not raise on the values they meet",
         "LabelRows is the last filter of a pipeline; EncodeCatRows is the first filter and runs on materialised (list / dict) rows whose categorical keys are present in every row",
         "negative positions and slices are not accessed; header-name access on the feats part is not demanded",
-        "ARFF text is unquoted, comma separated, one attribute per line (C12 covers the reader's grammar)"]
+        "ARFF text is unquoted, comma separated, one attribute per line (C12 covers the reader's grammar)",
+        "reuse: a second table is offered to a stack only where every stage's constructor arguments are meaningful on it (StageOK in the spec); filter objects are applied one table after the other, each read completely (no interleaved reads of one object)"]
